@@ -44,6 +44,8 @@ func oracleC02(c *oracleCfg) *report {
 		}
 		r.eval(s, nt)
 	})
+	// long inputs: every byte, pair and triple (triples over the structural bytes in the quick tier)
+	// repeated; the goroutine stack is limited so that recursion per input byte is fatal quickly
 	var units []string
 	for _, a := range htmlAlpha {
 		units = append(units, string([]byte{a}))
@@ -54,12 +56,27 @@ func oracleC02(c *oracleCfg) *report {
 		}
 	}
 	units = append(units, "<a ", "<a b=", "<a b='c'", "<a/", "</a>", "<!--", "-->", "<![CDATA[", "]]>", "<%", "%>", "&#", "&#x1;", "<a b=c ", "/ ", " /", "a=", "='", "<?", "<!")
-	sizes := []int{1 << 20}
+	tri := htmlStruct
 	if c.thorough() {
-		sizes = []int{1 << 20, 10 << 20}
+		tri = htmlAlpha
+	}
+	for _, a := range tri {
+		for _, b := range tri {
+			for _, d := range tri {
+				if a != b || b != d {
+					units = append(units, string([]byte{a, b, d}))
+				}
+			}
+		}
+	}
+	size := 256 << 10
+	debug.SetMaxStack(8 << 20)
+	if c.thorough() {
+		size = 1 << 20
+		debug.SetMaxStack(32 << 20)
 	}
 	ev := newEvaluator()
-	longInputs(units, sizes, func(s string) {
+	run := func(s string) {
 		fmt.Fprintf(progress, "LONG unit=%q len=%d\n", clip(s[:min(len(s), 8)]), len(s))
 		ev.beginLimit(s, 60*time.Second)
 		t0 := time.Now()
@@ -71,8 +88,13 @@ func oracleC02(c *oracleCfg) *report {
 			r.fail("IsXSS-long-slow", s, fmt.Sprintf("len=%d took %v", len(s), d))
 		}
 		r.eval(s, true)
-		r.hist(fmt.Sprintf("long-%dMB", len(s)>>20))
-	})
+		r.hist(fmt.Sprintf("long-%dkB", len(s)>>10))
+	}
+	longInputs(units, []int{size}, run)
+	if c.thorough() { // the repository's own TestMemory scale for single bytes and pairs
+		debug.SetMaxStack(64 << 20)
+		longInputs(units[:len(htmlAlpha)*len(htmlAlpha)], []int{10 << 20}, run)
+	}
 	return r
 }
 
